@@ -85,7 +85,9 @@ def repair_num(x):
 # hazards of the findings that are still open (F-C17c..g are fixed: nothing of them is repaired, classified or suppressed); F-C17c (917b518), F-C17d (d511a4f) and F-C17e (86ebd6a) are fixed: nothing is repaired or
 # suppressed for them, a recurrence is a plain VIOLATION
 # F-C17h (request body without "attrs": null dereference) is fixed by a049be8: the driver still tags such a crash (grouping), nothing is classified
-HAZ = {"F-C17a": "num", "F-C17b": "nul", "F-C17i": "start"}
+# F-C17j: the deactivation of a DEPENDENT is answered by an exception in the middle of a cascade (delete line `… 1 thr=<other object>`)
+# F-C17k (rolled-back Service left in its host's service map) has its own classifier: _rolled_back_service
+HAZ = {"F-C17a": "num", "F-C17b": "nul", "F-C17i": "start", "F-C17j": "thrdep"}
 BAD_LOG_DIR = b"/nonexistent-c17/"
 
 
@@ -109,9 +111,11 @@ class C17(StdCheck):
                          "faithful_number_partial", "number_precision_counterexample",
                          "emit_parse_roundtrip", "no_injection", "create_config_roundtrip", "faithful_attributes_partial",
                          "emit_parse_roundtrip_witness", "lexer_keyword_key_roundtrip", "lexer_keywords_known_to_writer", "bare_key_is_identifier_witness",
-                         "create_all_or_nothing_partial", "activate_exception_counterexample",
+                         "create_all_or_nothing_partial", "activate_exception_counterexample", "rolled_back_service_resolvable_counterexample",
                          "delete_removes_object_and_file", "deleted_service_unresolvable_regression", "cyclic_cascade_delete_regression", "refuse_non_api", "cascade_only_when_asked", "unique_names",
-                         "delete_only_removes", "cascade_removes_children", "generated_children_not_runtime",
+                         "delete_only_removes", "cascade_removes_children", "cascade_removes_children_partial", "cascade_aborted_dependent_counterexample",
+                         "aborted_delete_then_retry", "items_owned_invariant", "create_all_or_nothing_reachable", "generated_children_not_runtime",
+                         "cascade_only_dependents", "noncascading_delete_meets_spec", "aborted_delete_meets_spec", "noncascading_delete_meets_spec_along_run",
                          "escapeName_injective", "confPath_injective", "confPath_in_type_dir"]
     technique = ("Lean 4 proof over a hand-written model of ConfigWriter, the config lexer/parser fragment and the create/delete state machine "
                  "(emit/parse round trip by mutual induction over the value tree and the statement list, invariant by induction over "
@@ -122,10 +126,22 @@ class C17(StdCheck):
     level_text = ("Machine-checked: every NUL-free byte string survives EmitString -> string-literal lexer unchanged with the literal ending "
                   "exactly at the writer's closing quote; numbers are written rounded to six fractional digits (exact iff <= 6 digits); create is "
                   "all-or-nothing for every injected fault except an exception out of ActivateItems (F-C17i: reproduced on the real code, a FileLogger "
-                  "whose Start() throws stays behind); delete removes object, item and file, refuses non-API objects, removes nothing else without "
-                  "cascade, only ever removes (objects, items, files afterwards are sub-lists of those before, cycles included), and a cascading "
-                  "delete always succeeds and removes every direct dependent (the transitive closure is demanded of the implementation's trace by "
-                  "spec clause cascade_complete, not proved of the model); what apply rules generate as a side effect of a create never carries "
+                  "whose Start() throws stays behind), in every reachable state without a hypothesis on the registered items (items_owned_invariant: every item "
+                  "belongs to a registered object along every operation sequence; create_all_or_nothing_reachable); a delete that reports success has removed object, "
+                  "item and file - for every state and whatever deactivation the environment answers with an exception (the catch block of DeleteObjectHelper is "
+                  "modelled: fault thr, deactivateObj); delete refuses non-API objects, removes nothing else without "
+                  "cascade, only ever removes (names, items, files afterwards are sub-lists of those before, every remaining object is the one it was, at most "
+                  "deactivated; cycles and aborted deletions included), and a cascading "
+                  "delete whose own deactivation does not fail succeeds and removes every direct dependent except one whose deactivation fails "
+                  "(cascade_removes_children_partial; the exception is F-C17j, cascade_aborted_dependent_counterexample, reproduced on the real code; the transitive "
+                  "closure is demanded of the implementation's trace by spec clause cascade_complete, not proved of the model); a deletion aborted by an exception "
+                  "leaves the object whole and the next delete of it succeeds and removes object, item and file (aborted_delete_then_retry, all states); whatever a delete "
+                  "removes is the object or something that depends on it through the reflexive-transitive closure of the dependency edges (cascade_only_dependents, all states, "
+                  "all graphs, with and without faults). "
+                  "First theorems ABOUT THE SPEC PREDICATE: specDelete evaluated on the model's own step accepts every non-cascading delete (absent, non-API, refused "
+                  "because of dependents, successful) in every state with unique names and distinct files, hence along every operation sequence "
+                  "(noncascading_delete_meets_spec, noncascading_delete_meets_spec_along_run), and the aborted delete (aborted_delete_meets_spec); it rejects the trace "
+                  "of a retry that reports success and removes nothing (example). what apply rules generate as a side effect of a create never carries "
                   "the _api package; names stay unique over every create/delete sequence. EscapeName is injective and slash-free for every name, "
                   "hence the file of a runtime object is distinct for distinct names of one type and lies directly in the type's directory "
                   "(spec clause file_where_expected compares the real file path with the modelled ComputeNewObjectConfigPath). "
@@ -136,11 +152,17 @@ class C17(StdCheck):
                   "files, global namespace hash): besides the clauses above, registered_by_name (every listed object is found under its name, "
                   "before and after every call, failed ones included), generated_not_runtime (side effects of a create are not runtime objects), "
                   "refuse_non_api judged by the HISTORY (an object no create call produced must be refused), cascade_complete (every transitive "
-                  "dependent, and the item and file of every object that went, are gone), no_crash.")
+                  "dependent, and the item and file of every object that went, are gone), kept_object_keeps_item_and_file (an object that stayed - the call failed, "
+                  "was aborted, or was about another object - still has its item and file), no_crash. Deletes are also driven with an injected fault (an "
+                  "OnActiveChanged subscriber throwing on the deactivation of the target or of a dependent, directly and through DELETE /v1/objects), mostly followed "
+                  "by a retry: the fault excuses a reported failure and the deactivated state of the object it hit, nothing else.")
     level_note = ("Trusted: Lean kernel (+ propext, Classical.choice, Quot.sound), harness/driver, libc printf/strtod (the driver recomputes "
                   "nearest-binary64), the outcome of compile/commit/activate is an oracle input (fault injection in the model; a failed call that "
-                  "left the object behind is replayed as the fault activateThrows). The open findings F-C17a (number precision), F-C17b (NUL) "
-                  "and F-C17i (Start() throws: committed object left behind) are reported as KNOWN-FINDING by a classifier that repairs the recorded hazard in the "
+                  "left the object behind is replayed as the fault activateThrows; which deactivation throws during a delete is chosen by the generator and "
+                  "replayed in the model as thr). The open findings F-C17a (number precision), F-C17b (NUL), "
+                  "F-C17i (Start() throws: committed object left behind), F-C17j (cascade reports success although the deletion of a dependent was aborted; "
+                  "classified only for clause cascade_complete on the faulted cascading delete itself) and F-C17k (a Service rolled back by the name check stays in its "
+                  "host's service map: classified only for clause dangling_parent after a failed create of a Service with a surplus name part) are reported as KNOWN-FINDING by a classifier that repairs the recorded hazard in the "
                   "minimised witness and re-runs it: only failures that vanish after the repair are attributed to the finding; the driver tags the "
                   "clause with the hazards present in the failing line so that a known hazard cannot use up the per-clause shrink budget of an "
                   "unrelated failure. The harness does not read message texts "
@@ -149,17 +171,21 @@ class C17(StdCheck):
     trusted_base = [
         "not modelled (their outcome is read from the implementation): type validation, template import, apply rules, cluster sync of created objects; the HTTP handlers are driven (about 13 % of the operations, incl. request bodies without an attrs member) but not modelled beyond the calls they make",
         "the model's object list is its registry: the lookup-by-name consistency (registered_by_name) is checked on the implementation's trace only; the SHA1 of a truncated Comment/Downtime file name is an oracle (prefix, length and alphabet are checked)",
+        "the specification-on-model theorems cover non-cascading and aborted deletes only: no theorem evaluates specCreate or a cascading specDelete on the model (distinct files of distinct runtime objects is a hypothesis there, justified by confPath_injective, not an invariant proved along run)",
+        "l_DeletionInProgress is modelled as a parameter of the recursion (released at every exit by construction); a guard that outlives the call is caught on the implementation's trace (retry after an aborted delete), not excluded by a theorem about the C++ code",
         "never driven: ConfigUpdateObject/ConfigDeleteObject (cluster peers), Comment::AddComment/Downtime::AddDowntime, DELETE with a filter / several targets",
         "parameters: glibc printf(\"%.6f\") = exact round-half-even, strtod = nearest binary64 (recomputed in the driver)",
         "the model's parser accepts exactly the writer's fragment; any other token makes it reject (counted as structure_preserved failure)",
     ]
     assumptions = ["DependencyGraph parents/children of a created object are read from the implementation (oracle)",
+                   "delete faults: WHICH deactivation throws is chosen by the generator (an OnActiveChanged subscriber connected by the harness for the duration of the call); "
+                   "that an aborted deactivation has untracked the object's references (generated Stop()) is mirrored by the driver's book-keeping of dependency edges (an inactive object is nobody's dependent)",
                    "file path of a created object: read from the implementation and compared with the modelled path (spec clause file_where_expected); "
                    "create_all_or_nothing_partial still takes the path as a parameter with the hypothesis that it is fresh (confPath_injective is the reason it is, "
                    "the invariant linking files to live objects along run is not proved)"]
     rule = ("seeded generator: cases of 4-10 create/delete operations over 18 object types and a small name pool (duplicates, dependents, "
             "cascade, static non-API objects, invalid attributes, ignore_on_error, templates, composite names with a surplus '!' part that collide with an "
-            "existing object, FileLogger (a type whose Start() can throw), request bodies without attrs); names/keys/values biased towards quotes, "
+            "existing object, FileLogger (a type whose Start() can throw), request bodies without attrs, deletes aborted by a throwing OnActiveChanged subscriber (target or dependent) followed by a retry); names/keys/values biased towards quotes, "
             "backslashes, line breaks, comment markers, }}}, $, keyword-like/dotted/multi-line keys, NUL, deep nesting, numbers of all magnitudes. "
             "evaluations = create + delete calls; non-trivial case = one that exercised a refused or cascading delete")
 
@@ -173,6 +199,11 @@ class C17(StdCheck):
         w = line.split(" | ")[0].split()
         if len(w) > 2 and w[0] == "X":      # the operation the worker died in
             w = w[2:]
+        if len(w) >= 5 and w[0] == "delete" and w[-1].startswith("thr="):
+            # F-C17j: the same cascading delete without the fault in a dependent (a fault in the target itself is not repaired)
+            if w[3] == "1" and w[-1][4:] != w[1] + ":" + w[2]:
+                return " ".join(w[:-1]), {"thrdep"}
+            return " ".join(w), set()
         if len(w) not in (6, 7) or w[0] != "create":
             return " ".join(w), set()
         found = set()
@@ -216,6 +247,29 @@ class C17(StdCheck):
         w[5] = enc_v(at2)
         return " ".join(w), found
 
+    def _rolled_back_service(self, lines):
+        """F-C17k: the case holds a FAILED create of a Service with a surplus '!' part, and dangling_parent vanishes when that
+        part is dropped (the service then exists).  Nothing else is repaired; any other dangling parent stays a VIOLATION."""
+        fixed, hit = [], False
+        for l in lines:
+            op, _, obs = l.partition(" | ")
+            w = op.split()
+            if len(w) >= 6 and w[0] == "create" and w[1] == "Service" and w[2] != "-":
+                try:
+                    parts = bytes.fromhex(w[2]).split(b"!")
+                except ValueError:
+                    parts = []
+                if len(parts) > 2 and (not obs or " ok=0 " in " " + obs + " "):
+                    hit = True
+                    w[2] = b"!".join(parts[:2]).hex()
+            if len(w) > 2 and w[0] == "X":
+                w = w[2:]
+            fixed.append(" ".join(w))
+        if not hit:
+            return False
+        harness, driver = self._hd
+        return not self._fails(harness, driver, fixed, "SPECFAIL", "clause=dangling_parent")
+
     def matches_known(self, entry, finding):
         if finding.kind != "spec":
             return False
@@ -224,8 +278,14 @@ class C17(StdCheck):
             return False
         base = m.group(1)
         lines = [l for l in finding.case_lines if l.split(" ")[0] in ("C", "create", "delete", "X")]
+        if entry["id"] == "F-C17k":
+            return base == "dangling_parent" and self._rolled_back_service(lines)
         haz = HAZ.get(entry["id"])
         if not haz:
+            return False
+        if entry["id"] == "F-C17j" and not (base == "cascade_complete" and "+thrdep" in m.group(2)):
+            # only the faulted cascading delete ITSELF reporting success with a dependent left behind; whatever goes wrong
+            # in a later call (e.g. a retry which removes nothing) is not this finding
             return False
         fixed, present = [], set()
         for l in lines:
